@@ -341,6 +341,7 @@ pub async fn start_server(opt_host: Option<String>, opt_port: Option<String>, op
   HttpServer::new(move || {
     App::new()
       .app_data(application_data.clone())
+      .app_data(web::PayloadConfig::new(4 * 1024 * 1024))
       .app_data(web::JsonConfig::default().limit(4 * 1024 * 1024).error_handler(|err, _| {
         error::InternalError::from_response(
           "",
